@@ -22,13 +22,23 @@ Meaning of the Rust constructs (combinators: lean/KestrelModel/RsStr.lean and Rs
   the error enum        -> an inductive with one constant constructor per constructor NAMED in the source; payloads
                            (message strings, `format!`) are dropped
   struct                -> structure (tuple struct: field `_0`);  impl fn -> `Type.fn`;  `&self` -> first parameter
+  const / helper fn     -> `@[simp] def` (every function that is not in the table TARGETS);  lifetime parameters are erased
+  Option methods        -> as_ref / cloned / copied / clone -> identity;  ok_or(e) / ok_or_else(|| e) -> `RsStr.ok_or`
+  l.iter().find(|x| p) / l.iter().any(|x| p)  -> `List.find? (fun x => p) l` / `List.any l (fun x => p)`
   `&mut` parameter      -> passed by value, its final value is returned (tuple in parameter order, Rust result last), also
                            at every `return`
-  let mut / assignment  -> shadowing `let`
+  let mut / assignment  -> shadowing `let`;  `let (a, b) = e;` -> `let (a, b) := e`;  `Self` -> the type of the `impl`
+  let PAT = e else {..} -> `Flow.bind (match e with | PAT => Flow.next vars | _ => else-block) fun vars =>` (the block must diverge)
+  if let PAT = e {A} else {B}  -> the statement `match e { PAT => {A}, _ => {B} }`;  `Zeroizing<T>` -> T;  `Vec::with_capacity(n)` -> []
+  l.split_at(n)         -> (l.take n, l.drop n)
   return / ? / continue -> `Flow.ret` / `Flow.propagate` / `Flow.cont` in the three-outcome type `RsStr.Flow`; statements that
                            may leave early are sequenced with `Flow.bind`; a function body containing any is wrapped in `RsStr.run`
   if / match statements -> an expression yielding the tuple of outer variables assigned in their branches
   for x in l            -> `RsStr.forIn l (fun x state => body) state` over the tuple of outer variables the body assigns
+                           (both tuples: ordered by the Lean type of the variables, then by first occurrence inside the statement /
+                           loop, so that permuting the declarations in front of it, or renaming them, changes nothing)
+  if / match as a value -> as a `let` initialiser or as the result of the function (`fn f() -> T { ..; match x { A => v, .. } }`):
+                           the Lean `if` / `match` whose branches end in the values
   unwrap / expect       -> `RsStr.unwrap_opt` / `RsStr.unwrap_res` (Rust panic totalised with `default`); sites listed in the header
 """
 import sys, os, hashlib
@@ -41,6 +51,8 @@ LEAN_KEYWORDS = {
     'Type', 'Prop', 'Sort', 'λ', 'seal', 'unseal', 'export', 'set_option', 'attribute', 'mutual', 'nomatch', 'nofun',
     'suffices', 'obtain', 'try', 'catch', 'finally', 'unless', 'break', 'continue', 'forall', 'exists', 'this', 'default',
     'some', 'none', 'true', 'false',
+    'public', 'meta', 'module', 'scoped', 'noncomputable', 'opaque', 'initialize', 'builtin_initialize', 'coinductive', 'infixl',
+    'infixr', 'elab', 'declare_syntax_cat', 'omit', 'include', 'nonrec', 'termination_by', 'decreasing_by', 'assert', 'sorry',
 }
 
 
@@ -241,9 +253,12 @@ class Parser:
             elif tok.text in (']', ')', '}') and tok.kind == 'p': depth -= 1
 
     def skip_vis(self):
+        """-> True if the item is `pub` / `pub(..)`"""
         if self.accept('pub'):
             if self.accept('('):
                 while not self.accept(')'): self.next()
+            return True
+        return False
 
     # ---- items
     def parse_use_tree(self, prefix, uses, line):
@@ -271,10 +286,10 @@ class Parser:
                 self.parse_use_tree([], uses, line)
                 self.expect(';')
                 continue
-            self.skip_vis()
+            vis = self.skip_vis()
             tok = self.peek()
             if self.at('fn'):
-                items.append(self.parse_fn(None)); continue
+                items.append(self.parse_fn(None, vis)); continue
             if self.at('const'):
                 self.next()
                 name = self.ident()
@@ -336,12 +351,12 @@ class Parser:
         while not self.accept('}'):
             if self.at('#'):
                 self.skip_attribute(); continue
-            self.skip_vis()
+            vis = self.skip_vis()
             if self.at('type'):
                 self.next(); an = self.ident().text; self.expect('='); assoc[an] = self.parse_type(); self.expect(';')
                 continue
             if self.at('fn'):
-                fns.append(self.parse_fn(owner)); continue
+                fns.append(self.parse_fn(owner, vis)); continue
             tok = self.peek()
             raise Unsupported(f'`{tok.text}` inside an `impl` (only `type` and `fn`)', tok.line)
         return Node('impl', line, owner=owner, trait=trait, assoc=assoc, fns=fns)
@@ -381,7 +396,15 @@ class Parser:
         if n == 'Self' and self.at('::'):
             self.next(); an = self.ident().text
             return ('assoc', an)
-        if self.at('<') or self.at('::'): raise Unsupported(f'generic or qualified type `{n}…`', name.line)
+        if self.at('::'): raise Unsupported(f'generic or qualified type `{n}…`', name.line)
+        if self.accept('<'):
+            # `Name<T>`: accepted only if `Name` turns out to be a transparent wrapper (table EXTERN_WRAPPER_TYPES; see norm_type)
+            args = []
+            while not self.at('>') and not self.at('>>'):
+                args.append(self.parse_type())
+                if not self.at('>') and not self.at('>>'): self.expect(',')
+            self.close_angle()
+            return ('wrapper', n, tuple(args), name.line)
         return ('adt', n)
 
     def close_angle(self):
@@ -391,11 +414,17 @@ class Parser:
             tok.text = '>'; return
         self.expect('>')
 
-    def parse_fn(self, owner):
+    def parse_fn(self, owner, vis=False):
         line = self.expect('fn').line
         name = self.ident().text
         self.fn = f'{owner}::{name}' if owner else name
-        if self.at('<'): raise Unsupported('generic parameters', line)
+        if self.accept('<'):
+            # lifetime parameters only (`fn f<'a>(x: &'a str) -> &'a str`): lifetimes are erased by the translation
+            while not self.accept('>'):
+                if self.peek().kind != 'lifetime': raise Unsupported('generic parameters (other than lifetimes)', line)
+                self.next()
+                if self.at(':'): raise Unsupported('lifetime bound', line)
+                if not self.at('>'): self.expect(',')
         self.expect('(')
         params, self_kind = [], None
         while not self.accept(')'):
@@ -418,7 +447,7 @@ class Parser:
         if self.at('where'): raise Unsupported('`where` clause', line)
         body = self.parse_block()
         self.fn = None
-        return Node('fn', line, name=name, owner=owner, self_kind=self_kind, params=params, ret=ret, body=body)
+        return Node('fn', line, name=name, owner=owner, self_kind=self_kind, params=params, ret=ret, body=body, vis=vis)
 
     # ---- statements
     def parse_block(self):
@@ -437,6 +466,17 @@ class Parser:
             if self.at('let'):
                 self.next()
                 mut = bool(self.accept('mut'))
+                if not mut and (self.at('(') or (self.peek().kind == 'id' and self.at('(', 1))):
+                    # `let (a, b) = e;`   or   `let Some(x) = e else { return .. };`
+                    pat = self.parse_pat()
+                    if self.at(':'): raise Unsupported('type annotation on a `let` pattern', tok.line)
+                    if not self.accept('='): raise Unsupported('`let` without initialiser', tok.line)
+                    init = self.parse_expr()
+                    els = None
+                    if self.accept('else'): els = self.parse_block()
+                    self.expect(';')
+                    stmts.append(Node('letpat', tok.line, pat=pat, init=init, els=els))
+                    continue
                 if not (self.peek().kind == 'id') or self.at('(', 1) or self.at('{', 1) or self.at('::', 1) or self.at('ref'):
                     raise Unsupported('pattern in `let`', tok.line)
                 name = self.ident()
@@ -499,13 +539,28 @@ class Parser:
 
     def parse_if(self):
         line = self.expect('if').line
-        if self.at('let'): raise Unsupported('`if let`', line)
+        if self.accept('let'):
+            # `if let PAT = e { A } else { B }`  ==  `match e { PAT => { A }, _ => { B } }`
+            pat = self.parse_pat()
+            if self.at('|'): raise Unsupported('or-pattern', line)
+            self.expect('=')
+            scrut = self.parse_header_expr()
+            if self.at('&&'): raise Unsupported('`if let` chain', line)
+            then = self.parse_block()
+            els = self.parse_else(line)
+            if els is None: els = Node('block', line, stmts=[], tail=None)
+            elif els.kind != 'block': els = Node('block', els.line, stmts=[els], tail=None)
+            return Node('matchs', line, scrut=scrut, iflet=True,
+                        arms=[Node('arm', line, pat=pat, body=then), Node('arm', els.line, pat=Node('pwild', els.line), body=els)])
         cond = self.parse_header_expr()
         then = self.parse_block()
-        els = None
-        if self.accept('else'):
-            els = self.parse_if() if self.at('if') else self.parse_block()
+        els = self.parse_else(line)
+        if els is not None and els.kind == 'matchs': els = Node('block', els.line, stmts=[els], tail=None)
         return Node('if', line, cond=cond, then=then, els=els)
+
+    def parse_else(self, line):
+        if not self.accept('else'): return None
+        return self.parse_if() if self.at('if') else self.parse_block()
 
     def parse_match(self):
         line = self.expect('match').line
@@ -666,6 +721,15 @@ class Parser:
             else:
                 return e
 
+    def parse_closure_body(self, tok):
+        """an expression, or a block that consists of one expression (`|| { e }`, as rustfmt writes a long closure)"""
+        if self.at('->'): raise Unsupported('closure with a return type', tok.line)
+        if self.at('{'):
+            b = self.parse_block()
+            if b.stmts or b.tail is None: raise Unsupported('closure whose block body is more than one expression', tok.line)
+            return b.tail
+        return self.parse_expr()
+
     def parse_primary(self):
         tok = self.next()
         if tok.kind == 'int':
@@ -682,7 +746,10 @@ class Parser:
             if tok.text == 'match':
                 self.i -= 1
                 return self.parse_match()
-            if tok.text in ('if', 'loop', 'while', 'unsafe', 'move', 'return', 'break', 'continue', 'async', 'for'):
+            if tok.text == 'if':
+                self.i -= 1
+                return self.parse_if()          # as a value: accepted only as a `let` initialiser (see let_stmt / value_lines)
+            if tok.text in ('loop', 'while', 'unsafe', 'move', 'return', 'break', 'continue', 'async', 'for'):
                 raise Unsupported(f'`{tok.text}` expression', tok.line)
             if self.at('!') and not self.at('=', 1) and self.peek(1).kind == 'p' and self.peek(1).text in ('(', '[', '{'):
                 self.next()
@@ -764,11 +831,9 @@ class Parser:
                 params.append(self.parse_pat())
                 if self.at(':'): raise Unsupported('closure parameter with a type annotation', tok.line)
                 if not self.at('|'): self.expect(',')
-            if self.at('->') or self.at('{'): raise Unsupported('closure with a block body / return type', tok.line)
-            body = self.parse_expr()
-            return Node('closure', tok.line, params=params, body=body)
+            return Node('closure', tok.line, params=params, body=self.parse_closure_body(tok))
         if tok.kind == 'p' and tok.text == '||':
-            raise Unsupported('closure without parameters', tok.line)
+            return Node('closure', tok.line, params=[], body=self.parse_closure_body(tok))
         raise Unsupported(f'expression starting with `{tok.text}`', tok.line)
 
 
@@ -871,8 +936,18 @@ EXTERN_FNS = {
     ('ct_codecs', 'Base64', 'encode_to_string'): ([BYTES], ('res', 'str', 'unit'), 'RsStr.b64_encode_to_string'),
     ('zeroize', 'Zeroizing', 'new'): 'identity',
 }
+#   `Name<T>` that is modelled by `T` itself (`Zeroizing::new`, listed above, is the identity)
+EXTERN_WRAPPER_TYPES = {('zeroize', 'Zeroizing')}
 #   `Base64::decode_to_vec(s, None)`: first argument a string (its UTF-8 bytes are decoded), second literally `None`
 EXTERN_B64_DECODE = ('ct_codecs', 'Base64', 'decode_to_vec')
+
+# The functions the equality theorems (lean/KestrelProps/KeyringSrc.lean) are stated about, as (impl type, fn).  They become plain
+# `def`s; EVERY OTHER function of the file (accessors, helpers extracted from a target) and every `const` becomes a `@[simp] def`,
+# so that a proof about a target sees through a named literal or an extracted helper.  A target missing from the file is refused.
+TARGETS = [('EncodedPk', 'try_from'), ('EncodedSk', 'try_from'),
+           ('Keyring', 'new'), ('Keyring', 'get_key'), ('Keyring', 'get_name_from_key'), ('Keyring', 'lock_private_key'),
+           ('Keyring', 'unlock_private_key'), ('Keyring', 'encode_public_key'), ('Keyring', 'decode_public_key'),
+           ('Keyring', 'serialize_key'), ('Keyring', 'parse_config'), ('Keyring', 'add_key'), ('Keyring', 'valid_key_name')]
 
 MUTATING_METHODS = ('retain', 'push', 'extend_from_slice', 'copy_from_slice')
 EFFECT_KINDS = ('return', 'continue', 'try')
@@ -951,6 +1026,10 @@ class Globals:
     def norm_type(self, t, line, self_ty=None, assoc=None):
         """parsed type -> internal type: user structs stay ('adt', name); imported names become ('adt', full path)"""
         if isinstance(t, tuple):
+            if t[0] == 'wrapper':
+                if self.resolve_path([t[1]]) in EXTERN_WRAPPER_TYPES and len(t[2]) == 1:
+                    return self.norm_type(t[2][0], line, self_ty, assoc)
+                raise Unsupported(f'generic or qualified type `{t[1]}…`', t[3])
             if t[0] == 'adt':
                 n = t[1]
                 if n == 'Self':
@@ -1133,8 +1212,9 @@ class FnTr:
         if k == 'mcall': return self.mcall_expr(e, exp)
         if k == 'structlit': return self.struct_lit(e)
         if k == 'format': return self.format_expr(e)
-        if k == 'closure': self.bad('closure outside the argument of retain / find / map / map_err', e.line)
-        if k == 'match': self.bad('`match` expression other than as a statement or a `let` initialiser', e.line)
+        if k == 'closure': self.bad('closure outside the argument of retain / find / any / map / map_err / ok_or_else', e.line)
+        if k in ('match', 'matchs'): self.bad('`match` / `if let` expression other than as a statement, a `let` initialiser or the result of the function', e.line)
+        if k == 'if': self.bad('`if` expression other than as a statement, a `let` initialiser or the result of the function', e.line)
         if k == 'try': self.bad('`?` other than at the end of a `let` initialiser or of an expression statement', e.line)
         if k == 'assign': self.bad('assignment used as an expression', e.line)
         self.bad(f'expression {k}', e.line)
@@ -1199,6 +1279,7 @@ class FnTr:
     def closure(self, c, ptypes, what):
         """-> (lean text, result type)"""
         if c.kind != 'closure': self.bad(f'{what}: a closure literal was expected', c.line)
+        if not c.params: self.bad(f'{what}: closure without parameters', c.line)
         if len(c.params) != len(ptypes): self.bad(f'{what}: closure with {len(c.params)} parameters', c.line)
         if has_effects(c.body): self.bad('`return` / `?` / `continue` inside a closure', c.line)
         self.scopes.append({})
@@ -1233,8 +1314,10 @@ class FnTr:
         return t if (' ' not in t or t.startswith('(')) else f'({t})'
 
     def struct_lit(self, e):
-        if len(e.path) != 1 or e.path[0] not in self.G.structs: self.bad(f'struct literal `{"::".join(e.path)}`', e.line)
-        st = self.G.structs[e.path[0]]
+        sname = e.path[0]
+        if e.path == ['Self'] and getattr(self.fn, 'owner', None): sname = self.fn.owner
+        if len(e.path) != 1 or sname not in self.G.structs: self.bad(f'struct literal `{"::".join(e.path)}`', e.line)
+        st = self.G.structs[sname]
         if st.tuple: self.bad('brace literal of a tuple struct', e.line)
         given = dict()
         for fname, fe in e.fields:
@@ -1250,17 +1333,25 @@ class FnTr:
 
     def format_expr(self, e):
         pieces, cur, i, s = [], [], 0, e.fmt
+        fargs, positional = [], list(e.args)
         while i < len(s):
             if s.startswith('{{', i): cur.append('{'); i += 2
             elif s.startswith('}}', i): cur.append('}'); i += 2
             elif s.startswith('{}', i):
                 pieces.append(''.join(cur)); cur = []; i += 2
-            elif s[i] in '{}': self.bad('`format!` placeholder other than `{}`', e.line)
+                if not positional: self.bad('`format!`: number of `{}` and of arguments differ', e.line)
+                fargs.append(positional.pop(0))
+            elif s[i] == '{' and s.find('}', i) > 0 and s[i + 1:s.find('}', i)].isidentifier():
+                # inlined argument `{name}`: the variable of that name
+                j = s.find('}', i)
+                pieces.append(''.join(cur)); cur = []
+                fargs.append(Node('path', e.line, path=[s[i + 1:j]], generics=None)); i = j + 1
+            elif s[i] in '{}': self.bad('`format!` placeholder other than `{}` / `{name}`', e.line)
             else: cur.append(s[i]); i += 1
         pieces.append(''.join(cur))
-        if len(pieces) != len(e.args) + 1: self.bad('`format!`: number of `{}` and of arguments differ', e.line)
+        if positional: self.bad('`format!`: number of `{}` and of arguments differ', e.line)
         out = []
-        for j, a in enumerate(e.args):
+        for j, a in enumerate(fargs):
             if pieces[j]: out.append(f'{lean_str(pieces[j])}.toList')
             r = self.expr(a)
             if resolve(r[1]) != 'str': self.bad(f'`format!` argument of type {show_type(r[1])} (only strings)', a.line)
@@ -1282,6 +1373,7 @@ class FnTr:
         path, G = e.f.path, self.G
         if len(path) == 1 and self.lookup_opt(path[0]) is None:
             n = path[0]
+            if n == 'Self' and getattr(self.fn, 'owner', None): n = self.fn.owner      # `Self(..)` of a tuple struct
             if n in ('Some', 'Ok', 'Err'):
                 if len(e.args) != 1: self.bad(f'`{n}` with {len(e.args)} arguments', e.line)
                 ex = resolve(exp) if exp is not None else None
@@ -1308,7 +1400,16 @@ class FnTr:
             self.bad(f'`{owner}::{path[1]}` is not defined in the file', e.line)
         if path[0] in ('Vec', 'String') and path[1:] == ['new'] and not e.args:
             if path[0] == 'String': return ('([] : Str)', 'str', True)
-            ety = TVar()
+            ety = self.node_tv(e)      # kept on the node: the second pass knows what the first one found out about the elements
+            if e.f.generics:
+                if len(e.f.generics) != 1: self.bad('`Vec::<…>` with several type arguments', e.line)
+                ety = G.norm_type(e.f.generics[0], e.line)
+            return ('[]', ('list', ety), True)
+        if path in (['Vec', 'with_capacity'], ['String', 'with_capacity']) and len(e.args) == 1:
+            if has_effects(e.args[0]): self.bad('`?` / `return` inside the argument of `with_capacity`', e.line)
+            self.expr(e.args[0], 'usize')       # type-checked, then dropped: the capacity is not observable
+            if path[0] == 'String': return ('([] : Str)', 'str', True)
+            ety = self.node_tv(e)      # kept on the node: the second pass knows what the first one found out about the elements
             if e.f.generics:
                 if len(e.f.generics) != 1: self.bad('`Vec::<…>` with several type arguments', e.line)
                 ety = G.norm_type(e.f.generics[0], e.line)
@@ -1400,6 +1501,14 @@ class FnTr:
             clo, rty = self.closure(args[0], [elem], '`.find`')
             if resolve(rty) != 'bool': self.bad('`.find` with a non-boolean closure', e.line)
             return (f'List.find? {clo} {self.paren(l)}', ('opt', elem), False)
+        if name == 'any' and e.recv.kind == 'mcall' and e.recv.name == 'iter' and not e.recv.args:
+            arity(1)
+            l = self.expr(e.recv.recv)
+            if head(l[1]) != 'list': self.bad(f'`.iter()` on a value of type {show_type(l[1])}', e.line)
+            elem = resolve(l[1])[1]
+            clo, rty = self.closure(args[0], [elem], '`.any`')
+            if resolve(rty) != 'bool': self.bad('`.any` with a non-boolean closure', e.line)
+            return (f'List.any {self.paren(l)} {clo}', 'bool', False)
         recv = self.expr(e.recv)
         rt = resolve(recv[1])
         h = head(rt)
@@ -1459,9 +1568,25 @@ class FnTr:
             if name in ('as_slice', 'to_vec', 'clone', 'as_ref', 'to_owned'): arity(0); return ident
             if name == 'len': arity(0); return (f'{self.paren(recv)}.length', 'usize', False)
             if name == 'is_empty': arity(0); return (f'{self.paren(recv)}.isEmpty', 'bool', False)
-            if name == 'iter': self.bad('`.iter()` outside a `for` header or `.iter().find(..)`', e.line)
+            if name == 'split_at':
+                arity(1)
+                n = self.paren(self.expr(args[0], 'usize'))
+                return (f'({self.paren(recv)}.take {n}, {self.paren(recv)}.drop {n})', ('tuple', (rt, rt)), True)
+            if name == 'iter': self.bad('`.iter()` outside a `for` header or `.iter().find(..)` / `.iter().any(..)`', e.line)
         elif h == 'opt':
-            if name == 'as_ref': arity(0); return ident
+            if name in ('as_ref', 'cloned', 'copied', 'clone'): arity(0); return ident
+            if name in ('ok_or', 'ok_or_else'):
+                arity(1)
+                if name == 'ok_or_else':
+                    c = args[0]
+                    if c.kind != 'closure' or c.params: self.bad('`.ok_or_else`: a closure without parameters was expected', e.line)
+                    if has_effects(c.body): self.bad('`return` / `?` / `continue` inside a closure', c.line)
+                    a = c.body
+                else:
+                    a = args[0]
+                ex = resolve(exp) if exp is not None else None
+                r = self.expr(a, ex[2] if head(ex) == 'res' else None)
+                return (f'RsStr.ok_or {self.paren(recv)} {self.paren(r)}', ('res', rt[1], r[1]), False)
             if name == 'is_some': arity(0); return (f'{self.paren(recv)}.isSome', 'bool', False)
             if name == 'is_none': arity(0); return (f'{self.paren(recv)}.isNone', 'bool', False)
             if name in ('unwrap', 'expect'):
@@ -1559,6 +1684,10 @@ class FnTr:
         def scan_stmt(s, local):
             if s.kind == 'let':
                 scan_expr(s.init, local); local.add(s.name)
+            elif s.kind == 'letpat':
+                scan_expr(s.init, local)
+                if s.els is not None: scan_block(s.els, local)
+                pat_names(s.pat, local)
             elif s.kind == 'for':
                 scan_block(s.body, local | ({s.pat} if s.pat != '_' else set()))
             elif s.kind == 'if':
@@ -1572,7 +1701,32 @@ class FnTr:
 
         local = set()
         for s in stmts: scan_stmt(s, local)
-        return [found[k] for k in sorted(found)]
+        # Canonical order of the tuple: by the (Lean) TYPE of the variables, and among variables of one type by their first
+        # occurrence (read or write) inside `stmts`, in source order -- NOT by the order of the declarations (which are outside
+        # the construct and may be permuted freely), not by name (locals get renamed), and, as long as the types differ, not by
+        # the shape of the body either.
+        # (No inner binding can hide one of these variables: `declare` refuses to shadow a variable that is being updated.)
+        names = {v.name: v for v in found.values()}
+        seen = []
+
+        def occ(x):
+            if isinstance(x, Node):
+                if x.kind == 'path' and len(x.path) == 1 and x.path[0] in names and x.path[0] not in seen: seen.append(x.path[0])
+                for k, v in x.__dict__.items():
+                    if k in ('kind', 'line', 'tv', 'tv_err'): continue
+                    occ(v)
+            elif isinstance(x, (list, tuple)):
+                for y in x: occ(y)
+        occ(stmts)
+        rest = [found[k].name for k in sorted(found) if found[k].name not in seen]
+
+        def type_key(v):
+            try:
+                return self.G.lean_type(v.ty)
+            except Unsupported:         # first pass: not yet known (the order of the first pass is never printed)
+                return '~'
+        order = seen + rest
+        return sorted((names[n] for n in order), key=lambda v: (type_key(v), order.index(v.name)))
 
     def ret_value(self, e, line):
         """text of the function's result for `return e` / the tail expression `e` (preceded by the `&mut` parameters)"""
@@ -1609,6 +1763,7 @@ class FnTr:
         out = self.comment(s.line)
         k = s.kind
         if k == 'let': return out + self.let_stmt(s, rest, fin, ctx)
+        if k == 'letpat': return out + self.letpat_stmt(s, rest, fin, ctx)
         if k in ('if', 'matchs'): return out + self.branch_stmt(s, rest, fin, ctx)
         if k == 'for': return out + self.for_stmt(s, rest, fin, ctx)
         if k == 'return':
@@ -1643,9 +1798,9 @@ class FnTr:
             if ann is not None: ty = self.unify(ty, ann, s.line, f'`let {s.name}`')
             self.declare(s.name, ty, s.mut, 'local', s.line)
             return [f'Flow.bind ({text}) fun {self.binder(s.name, ty, s.line)} =>'] + self.seq(rest, fin, ctx)
-        if init.kind == 'match':
+        if init.kind in ('match', 'if', 'matchs'):
             fx = has_effects(init)
-            lines, ty = self.match_value(init, Ctx(fx, ctx.loop_state if fx else None))
+            lines, ty = self.value_lines(init, Ctx(fx, ctx.loop_state if fx else None))
             if ann is not None: ty = self.unify(ty, ann, s.line, f'`let {s.name}`')
             self.declare(s.name, ty, s.mut, 'local', s.line)
             if fx:
@@ -1655,26 +1810,92 @@ class FnTr:
         self.declare(s.name, r[1], s.mut, 'local', s.line)
         return [f'let {lname(s.name)}{self.asc(r[1], s.line, f"`{s.name}`")} := {r[0]}'] + self.seq(rest, fin, ctx)
 
-    def match_value(self, m, sub):
+    def irrefutable(self, p):
+        if p.kind in ('pid', 'pwild'): return True
+        if p.kind == 'pref': return self.irrefutable(p.p)
+        if p.kind == 'ptuple': return all(self.irrefutable(x) for x in p.subs)
+        return False
+
+    def pat_vars(self, p, acc):
+        if p.kind == 'pid': acc.append(p.name)
+        elif p.kind == 'pref': self.pat_vars(p.p, acc)
+        elif p.kind in ('ptuple', 'pctor'):
+            for x in (p.subs or []): self.pat_vars(x, acc)
+        return acc
+
+    def letpat_stmt(self, s, rest, fin, ctx):
+        """`let (a, b) = e;`  ->  `let (a, b) := e`
+           `let PAT = e else { diverges };`  ->  `Flow.bind (match e with | PAT => Flow.next (vars of PAT) | _ => else block) fun vars =>`"""
+        init = self.expr(s.init)
+        if s.els is None:
+            if not self.irrefutable(s.pat): self.bad('refutable pattern in a `let` without `else`', s.line)
+            pat = self.pattern(s.pat, init[1])
+            return [f'let {pat} := {init[0]}'] + self.seq(rest, fin, ctx)
+        if self.irrefutable(s.pat): self.bad('`let … else` with a pattern that always matches', s.line)
+        if not ctx.flow: self.bad('`let … else` in a context without early exits', s.line)
+
+        def no_fall():
+            self.bad('`else` block of `let … else` that does not end in `return` / `continue`', s.els.line)
+        els_lines = self.block_lines(s.els, Ctx(True, ctx.loop_state), no_fall, '`else` block of `let … else`')
+        pat = self.pattern(s.pat, init[1])          # declares the variables of the pattern for the rest of the block
+        names = [lname(n) for n in self.pat_vars(s.pat, [])]
+        if len(set(names)) != len(names): self.bad('a variable occurs twice in a pattern', s.line)
+        vt = '()' if not names else names[0] if len(names) == 1 else '(' + ', '.join(names) + ')'
+        binder = '_' if not names else vt
+        return (['Flow.bind (', f'  match {init[0]} with', f'  | {pat} =>', f'    Flow.next {vt}', '  | _ =>'] + ind(els_lines, 2) +
+                [f') fun {binder} =>'] + self.seq(rest, fin, ctx))
+
+    def value_lines(self, e, sub, vty=None):
+        """a `match` / `if` / `if let` whose branches produce a value -> (lines, value type)"""
+        if e.kind == 'if': return self.if_value(e, sub, vty if vty is not None else self.node_tv(e))
+        return self.match_value(e, sub, vty)
+
+    def value_block(self, b, sub, vty, what):
+        """a block `{ statements; value }` -> lines"""
+        stmts, tail = b.stmts, b.tail
+        if tail is None and stmts and stmts[-1].kind in ('if', 'matchs'):
+            stmts, tail = stmts[:-1], stmts[-1]        # `{ ..; if c { v } else { w } }`: the last statement is the value
+
+        def endv():
+            if tail is None: self.bad(f'{what} without a value', b.line)
+            t = tail
+            while t.kind == 'paren': t = t.e
+            if t.kind in ('if', 'match', 'matchs'): return self.value_lines(t, sub, vty)[0]
+            r = self.expr(t, vty)
+            return [self.val(sub, r[0])]
+        self.scopes.append({})
+        lines = self.seq(stmts, endv, sub)
+        self.scopes.pop()
+        return lines
+
+    def if_value(self, s, sub, vty):
+        if self.assigned_outer([Node('expr', s.line, e=s)]) or self.assigned_outer([s]):
+            self.bad('assignment inside the branches of an `if` that produces a value', s.line)
+        c = self.expr(s.cond)
+        if resolve(c[1]) != 'bool': self.bad(f'`if` condition of type {show_type(c[1])}', s.line)
+        if s.els is None: self.bad('`if` without `else` used as a value', s.line)
+        lines = [f'if {c[0]} then'] + ind(self.value_block(s.then, sub, vty, '`if` branch'))
+        if s.els.kind == 'if':
+            lines += ['else'] + ind(self.comment(s.els.line) + self.if_value(s.els, sub, vty))
+        else:
+            lines += ['else'] + ind(self.value_block(s.els, sub, vty, '`else` branch'))
+        return lines, vty
+
+    def match_value(self, m, sub, vty=None):
         """a `match` whose arms produce a value -> (lines, value type)"""
         if self.assigned_outer([Node('expr', m.line, e=m)]): self.bad('assignment inside the arms of a `match` that produces a value', m.line)
         scrut = self.expr(m.scrut)
-        vty = self.node_tv(m)
+        if vty is None: vty = self.node_tv(m)
+        if getattr(m, 'iflet', False) and self.irrefutable(m.arms[0].pat): self.bad('`if let` with a pattern that always matches', m.line)
         lines = [f'match {scrut[0]} with']
         for arm in m.arms:
             self.scopes.append({})
             pat = self.pattern(arm.pat, scrut[1])
             lines += self.comment(arm.line)
             if arm.body.kind == 'block':
-                b = arm.body
-
-                def endv(b=b):
-                    if b.tail is None: self.bad('`match` arm block without a value', b.line)
-                    r = self.expr(b.tail, vty)
-                    return [self.val(sub, r[0])]
-                self.scopes.append({})
-                body = self.seq(b.stmts, endv, sub)
-                self.scopes.pop()
+                body = self.value_block(arm.body, sub, vty, '`match` arm block')
+            elif arm.body.kind in ('if', 'match', 'matchs'):
+                body = self.value_lines(arm.body, sub, vty)[0]
             else:
                 r = self.expr(arm.body, vty)
                 body = [self.val(sub, r[0])]
@@ -1711,6 +1932,7 @@ class FnTr:
 
     def match_stmt_lines(self, s, sub, endv):
         scrut = self.expr(s.scrut)
+        if getattr(s, 'iflet', False) and self.irrefutable(s.arms[0].pat): self.bad('`if let` with a pattern that always matches', s.line)
         lines = [f'match {scrut[0]} with']
         for arm in s.arms:
             self.scopes.append({})
@@ -1863,17 +2085,26 @@ class FnTr:
         fx = has_effects(fn.body)
         ctx = Ctx(fx, None)
 
+        body_stmts, tail = fn.body.stmts, fn.body.tail
+        if tail is None and sig.ret not in (None, 'unit') and body_stmts and body_stmts[-1].kind in ('if', 'matchs'):
+            # `fn f() -> T { ..; match x { A => v, B => w } }`: the last statement IS the result
+            body_stmts, tail = body_stmts[:-1], body_stmts[-1]
+
         def fin():
             out = []
-            if fn.body.tail is not None: out = self.comment(fn.body.tail.line)
+            if tail is not None: out = self.comment(tail.line)
             elif sig.ret is not None: self.bad('missing result expression', fn.line)
-            return out + [self.val(ctx, self.ret_value(fn.body.tail, fn.body.tail.line if fn.body.tail is not None else fn.line))]
+            if tail is not None and tail.kind in ('if', 'match', 'matchs'):
+                if self.mut_vars: self.bad('`if` / `match` as the result of a function with `&mut` parameters', tail.line)
+                return out + self.value_lines(tail, ctx, self.ret)[0]
+            return out + [self.val(ctx, self.ret_value(tail, tail.line if tail is not None else fn.line))]
 
-        lines = self.seq(fn.body.stmts, fin, ctx)
+        lines = self.seq(body_stmts, fin, ctx)
         if fx: lines = ['RsStr.run ('] + ind(lines) + [')']
         p = lambda s: s if ' ' not in s else f'({s})'
         rty = rets[0] if len(rets) == 1 else ' × '.join(p(r) for r in rets)
-        head_ = f'def {sig.lean} {" ".join(params)} : {rty} :=' if params else f'def {sig.lean} : {rty} :='
+        attr = '' if sig.key in TARGETS else '@[simp] '
+        head_ = f'{attr}def {sig.lean} {" ".join(params)} : {rty} :=' if params else f'{attr}def {sig.lean} : {rty} :='
         self.G.calls[sig.key] = self.calls
         return [head_] + ind(lines)
 
@@ -1913,7 +2144,7 @@ def translate(src_text, src_label):
             u.fn = f'const {it.name}'; raise
         if it.name in G.consts: raise Unsupported(f'two constants named `{it.name}`', it.line)
         G.consts[it.name] = ty
-        const_chunks.append(f'/-- `{src_lines[it.line - 1].strip()}` (line {it.line}) -/\ndef {lname(it.name)} : {G.lean_type(ty, it.line)} := {r[0]}')
+        const_chunks.append(f'/-- `{src_lines[it.line - 1].strip()}` (line {it.line}) -/\n@[simp] def {lname(it.name)} : {G.lean_type(ty, it.line)} := {r[0]}')
     # signatures
     fns = []   # (fn node, self type, assoc types)
     for it in items:
@@ -1937,6 +2168,9 @@ def translate(src_text, src_label):
             if sig.key in G.fns: raise Unsupported(f'two functions named `{sig.lean}`', f.line)
             G.fns[sig.key] = sig
             fns.append((f, self_ty, assoc, sig))
+    for t in TARGETS:
+        if t not in G.fns:
+            raise Unsupported(f'function `{"::".join(x for x in t if x)}`, about which an equality theorem is stated (table TARGETS), is not defined in the file', None)
     # bodies: two passes (the first fixes type variables: integer literals, targets of into / try_into)
     bodies = {}
     for final in (False, True):
@@ -1993,6 +2227,10 @@ def translate(src_text, src_label):
         f, sig = by_key[key]
         sig_src = ' '.join(x.strip() for x in src_lines[f.line - 1:f.body.line]).rstrip('{').strip()
         chunks.append(f'/-- `{sig_src}` (keyring.rs line {f.line}) -/\n' + '\n'.join(bodies[key]))
+    pub = sorted(sig.lean.replace('«', '').replace('»', '') for f, _, _, sig in fns if getattr(f, 'vis', False))
+    chunks.append('/-- the functions of keyring.rs declared `pub` / `pub(crate)`, sorted by name: what the rest of the crate can call.\n'
+                  '    `keyring_source_api` (KestrelProps/KeyringSrc.lean) compares the list with the functions the theorems cover. -/\n'
+                  'def pubFns : List String :=\n  [' + ', '.join(lean_str(x) for x in pub) + ']')
     unwraps = '\n'.join('    ' + u for u in G.unwraps) if G.unwraps else '    (none)'
     header = f'''/-
   GENERATED by tools/rs2lean_keyring.py -- do not edit.
@@ -2000,8 +2238,10 @@ def translate(src_text, src_label):
   sha256 : {digest}
   Shallow embedding: one `def` per Rust `fn` (`Type.fn` for functions of an `impl`; definitions are in dependency order, not in
   source order), one `structure` per `struct` (tuple struct: field `_0`), one `def` per `const`; statement by statement, each
-  group of lines preceded by the Rust line it comes from.  The meaning of every library call is in KestrelModel/RsStr.lean
-  (and RsPrelude.lean for slices).
+  group of lines preceded by the Rust line it comes from.  The functions the equality theorems are stated about (table TARGETS
+  of the translator) are plain `def`s; every `const` and every other function (accessors, helpers) is a `@[simp] def`, so that a
+  proof about a target sees through a named literal or an extracted helper.  The meaning of every library call is in
+  KestrelModel/RsStr.lean (and RsPrelude.lean for slices).
   Strings are `Str = List Char` (`len()` = UTF-8 length); `&`, `*`, `as_str`, `as_ref`, `as_slice`, `to_string`, `to_owned`,
   `clone`, `into` (to `String`), `Zeroizing::new` are the identity.  usize is `Nat`, u32/u8 are UInt32/UInt8.
   `Result<T, E>` is `Except E T`.  The error enum `KeyringError` becomes an inductive whose constructors are the constructor
@@ -2011,8 +2251,10 @@ def translate(src_text, src_label):
   Early exits: a function body that contains `return`, `?` or `continue` is `RsStr.run (…)` of a term of the three-outcome
   type `RsStr.Flow` (`next` = fell through, `cont` = `continue`, `ret` = `return`); `Flow.bind` sequences statements.  An
   `if` / `match` statement yields the tuple of the outer variables its branches assign; a `for` loop is `RsStr.forIn` over the
-  tuple of outer variables its body assigns.  `let mut` / assignment is a shadowing `let`.  A `&mut` parameter is passed by
-  value and its final value returned (tuple in parameter order, the Rust result last), also at every `return` / failing `?`.
+  tuple of outer variables its body assigns.  The components of such a tuple are ordered by their type (as printed here), and
+  among variables of the same type by their first occurrence INSIDE the construct (not by the order of their declarations).  `let mut` / assignment is a shadowing `let`.  A `&mut`
+  parameter is passed by value and its final value returned (tuple in parameter order, the Rust result last), also at every
+  `return` / failing `?`.
   Rust panics are totalised: `unwrap` / `expect` give `default` on `None` / `Err` (RsStr.unwrap_opt / unwrap_res), slices as
   in RsPrelude.lean.  The translation is faithful only where these are unreachable; the sites are:
 {unwraps}
